@@ -8,6 +8,23 @@ ALL = [f"C{i:02d}" for i in range(1, 21)]
 
 # id -> (technique, level text, level note, design ref)
 CHECKS = {
+    "C09": (
+        "exhaustive product enumeration equivalence x keyword set x ordered member-dimension pair x input unit x target unit "
+        "x dtype x shape x entry point on the real code, against closed-form formulas on SI magnitudes; algebraic laws "
+        "(inverse, via-intermediate); complete enumeration of uncovered requests over an 11-dimension alphabet",
+        "All 9 registered equivalences (a gate fails the harness if the registry holds one without a reference formula) x "
+        "every ordered pair of member dimensions x 2-7 unit spellings per dimension for input and target (SI, CGS, prefixed, "
+        "compound spellings such as kg*m**2/s**2, imperial/astronomical) x default and non-default mu/gamma x float64 (all "
+        "units) and float32 (SI spellings) x scalar/array x 7 entry points (to keyword/positional, in_units, to_value, "
+        "to_equivalent, convert_to_units, convert_to_equivalent): value equals the formula evaluated with the library's "
+        "constants; copying forms leave bytes/unit/dtype/name of the input untouched; in-place forms reach the copying "
+        "form's unit and numbers; there-and-back returns the input; every path via a third member agrees with the direct "
+        "conversion (spectral, sound_speed). Every ordered pair of the 11 dimensions that an equivalence does not relate x "
+        "2x2 units x 7 entry points must raise InvalidUnitEquivalence and leave its input alone.",
+        "float32 cases whose constants or intermediates leave float32's normal range are filtered and counted. Same-dimension "
+        "requests are plain conversions (no verdict). Offset-scale sources may refuse.",
+        "DESIGN.md section 6 C09",
+    ),
     "C19": (
         "exhaustive product enumeration operand form pair x unit pair x value relation x rtol spelling x atol spelling x "
         "helper function, registry pair x relation, unit pair x relation for the equality helpers, and dimension x argument "
